@@ -382,9 +382,12 @@ def plan_pool(S, prop, tier, avoid):
     itemform = wpick(fr, [("list", 5), ("tuple", 1), ("gen", 2), ("iter", 1), ("map", 1), ("gen_pmap", 0.4)])
     if pipeline is None and n <= 8 and chance(fr, 0.05):
         work = "nested"
+    # what kind of callable the task is: a module-level function, a functools.partial, an object with __call__, a
+    # bound method
+    fnform = wpick(fr, [("func", 6), ("partial", 2), ("object", 1), ("method", 1)])
     return {"cfg": {"nproc": nproc, "chunksize": chunksize, "kw": kw, "work": work, "pipeline": pipeline,
                     "clock": draw_clock(S.py("clock")), "tiebreak": tiebreak, "lat_regime": regime, "pre": pre,
-                    "itemform": itemform},
+                    "itemform": itemform, "fnform": fnform},
             "ops": ops}
 
 
@@ -846,6 +849,30 @@ def gated(item):
     return out
 
 
+class GatedCallable(object):
+    """the task given as an object with __call__ (no __name__, no __qualname__ of a function)"""
+    def __init__(self, scale=1):
+        self.scale = scale
+
+    def __call__(self, item):
+        return gated(item)
+
+
+def _gated_kw(item, unused=None):
+    return gated(item)
+
+
+def _as_fn(form):
+    if form == "partial":
+        import functools
+        return functools.partial(_gated_kw, unused=0)
+    if form == "object":
+        return GatedCallable()
+    if form == "method":
+        return GatedCallable().__call__
+    return gated
+
+
 def plain(item):
     if item[3] == "nested":
         return sum((item[1] + j) * (item[1] + j) + 1 for j in range(3))     # (the reference does not go through pmap)
@@ -1037,7 +1064,7 @@ def _as_form(items, form):
     return items
 
 
-def _run_call(run, root, callno, items, sigma, nproc, chunksize, kw, clock, stop_after=None, form="list"):
+def _run_call(run, root, callno, items, sigma, nproc, chunksize, kw, clock, stop_after=None, form="list", fnform="func"):
     """One pmap call on real worker processes under the enforced completion order sigma.
     Returns (status, got, err)."""
     import esutil.pbar as pb
@@ -1069,7 +1096,7 @@ def _run_call(run, root, callno, items, sigma, nproc, chunksize, kw, clock, stop
     try:
         with _ClockInstalled(clock, False):
             try:
-                got = pb.pmap(gated, _as_form(items, form), chunksize=chunksize, nproc=nproc, **kw)
+                got = pb.pmap(_as_fn(fnform), _as_form(items, form), chunksize=chunksize, nproc=nproc, **kw)
             except Exception as e:
                 err = e
         _emit(calldir, b"q", 0)
@@ -1183,7 +1210,10 @@ def execute_pool(script, run, env):
         run.fault("items_as_" + ("one_shot_iterable" if form != "tuple" else "tuple"))
     if form == "gen_pmap" or work == "nested":
         run.fault("pmap_used_inside_a_running_pmap_call")
-    status, got, err = _run_call(run, root, len(pre), items, sigma, nproc, chunksize, kw, clock, form=form)
+    fnform = cfg.get("fnform", "func")
+    if fnform != "func":
+        run.fault("task_given_as_" + fnform)
+    status, got, err = _run_call(run, root, len(pre), items, sigma, nproc, chunksize, kw, clock, form=form, fnform=fnform)
     inversions = sum(1 for a in range(len(sigma)) for b in range(a + 1, len(sigma)) if sigma[a] > sigma[b])
     feats = {"total": "given" if "total" in cfg["kw"] else "none", "simple": bool(kw.get("simple")),
              "out_of_order": inversions > 0}
@@ -1285,7 +1315,7 @@ def simplify(script):
                 c["cfg"] = dict(cfg, pre=pre[:k] + [pc] + pre[k + 1:])
                 yield c
         for key, val in (("nproc", 2), ("nproc", 1), ("chunksize", 1), ("kw", {}), ("pipeline", None),
-                         ("tiebreak", "index"), ("itemform", "list")):
+                         ("tiebreak", "index"), ("itemform", "list"), ("fnform", "func")):
             if cfg.get(key) != val:
                 c = dict(script)
                 c["cfg"] = dict(cfg, **{key: val})
